@@ -56,6 +56,15 @@ def _natural_sort_key(var: Variable) -> tuple:
     return tuple(int(p) if p.isdigit() else p for p in parts)
 
 
+def _variable_order_key(var: Variable) -> tuple:
+    """Total order on variables: natural key first, raw name as tie-break.
+
+    Distinct names can share a natural key ("x01" and "x1"); the tie-break
+    keeps the order independent of set iteration order.
+    """
+    return (_natural_sort_key(var), var.name)
+
+
 def _try_get_single_vector_source(expr: "Expression") -> "VectorVariable | None":
     """Try to extract the single VectorVariable that an expression depends on.
 
@@ -409,8 +418,12 @@ class Problem:
                         break
 
                 if all_same:
-                    # All variables from one VectorVariable - already in order!
-                    self._variables = list(source_vector._variables)
+                    # All variables come from one VectorVariable. A view may
+                    # list them in another order (x[::-1]), so sort as the
+                    # general path does.
+                    self._variables = sorted(
+                        set(source_vector._variables), key=_variable_order_key
+                    )
                     return self._variables
 
         # General case: collect from all expressions and sort
@@ -422,7 +435,7 @@ class Problem:
         for constraint in self._constraints:
             all_vars.update(constraint.get_variables())
 
-        self._variables = sorted(all_vars, key=_natural_sort_key)
+        self._variables = sorted(all_vars, key=_variable_order_key)
         return self._variables
 
     @property
